@@ -24,7 +24,7 @@ SEGWIT = {"p2wpkh", "p2sh-p2wpkh", "p2wsh", "p2sh-p2wsh", "p2wsh-codesep"}
 TAPS = {"p2tr-script", "p2tr-csa", "p2tr-codesep"}
 
 def mutations(kind):
-    if kind == "bare-if": return [None, "openif"]
+    if kind == "bare-if": return [None, "openif", "altcarry", "altown"]
     m = [None, "wrongkey", "sigbyte", "output", "sequence", "locktime"]
     if kind in SEGWIT or kind in TAPS or kind == "p2tr-key": m.append("amount")
     if kind in ("p2sh", "p2wpkh", "p2sh-p2wpkh", "p2wsh", "p2sh-p2wsh"): m.append("scripthash")
@@ -77,6 +77,11 @@ def gen(chk):
                     if nin > 1 and rng.random() < 0.7:
                         for sel in (pos, (pos + 1) % nin, nin, 7):
                             add("select", c, sel=sel, label=(label if sel == pos else "refused"))
+    # size rules at set-up / at the switch: scriptPubKey of 10000 / 10001 bytes, witness items of 520 / 521 bytes (P2WSH, tapscript)
+    for k, sizes in (("bare-big", (10000, 10001)), ("p2wsh-item", (0, 520, 521, 600)), ("p2tr-item", (1, 520, 521))):
+        for wn in sizes:
+            c = S.build(rng, k, wn=wn, ht=(0 if k.startswith("p2tr") else 1))
+            add("pairs", c, label=c["valid"])
     # real-chain pairs
     real = dict(T.real_txs())
     for name in sorted(real):
